@@ -62,7 +62,12 @@ def transform(ck, prog):
         if not closure_calls(prog, v, LOOKUPS):
             continue
         none_dst = [d for val, d in t["targets"] if val == "0"]
-        some_dst = [d for val, d in t["targets"] if val == "1"] or [t["otherwise"]]
+        some_dst = [d for val, d in t["targets"] if val == "1"]
+        # `if let Some(..) = .. else ..` lists only one variant explicitly: the other one is the otherwise edge
+        if not none_dst and some_dst:
+            none_dst = [t["otherwise"]]
+        if not some_dst:
+            some_dst = [t["otherwise"]]
         lookups.append((i, none_dst[0] if none_dst else None, some_dst[0], term))
     inst = "transform: unseen category (lookup None) -> Err"
     if not lookups:
